@@ -2231,7 +2231,18 @@ fn finish_assignment_result(
                 _ => None,
             });
 
-        narrow_down_type(db, source_type.clone(), expr_type.clone(), declared)
+        match expr_type {
+            // Every member of an assigned union stays possible: a member that does not narrow against the
+            // previous type is kept as it is instead of being dropped from the result.
+            LuaType::Union(union) if fallback_type.is_none() => Some(TypeOps::union_all(
+                db,
+                union.into_vec().into_iter().map(|member| {
+                    narrow_down_type(db, source_type.clone(), member.clone(), declared.clone())
+                        .unwrap_or(member)
+                }),
+            )),
+            _ => narrow_down_type(db, source_type.clone(), expr_type.clone(), declared),
+        }
     };
 
     if reuse_source_narrowing || preserves_assignment_expr_type(expr_type) {
